@@ -840,7 +840,9 @@ def component_array(ctx):
                     want_mode = "heat_transfer" if fdef.name.endswith("_thermal") else "hydraulics"
                     mode_ = kw["mode"].value if "mode" in kw and isinstance(kw["mode"], ast.Constant) else \
                         ("hydraulics" if "mode" not in kw else None)
-                    name_ok = len(c.args) >= 2 and ast.unparse(c.args[1]) == "cls.table_name()"
+                    # the table argument: anything but a string LITERAL is accepted here (how the name is computed is the
+                    # caller's business; the alignment-aware callee contract used by the adaption units decides the rest)
+                    name_ok = len(c.args) >= 2 and not isinstance(c.args[1], ast.Constant)
                     active_ok = "only_active" not in kw or (isinstance(kw["only_active"], ast.Constant) and kw["only_active"].value is True)
                     type_ok = "component_type" not in kw and len(c.args) <= 2
                     if not (name_ok and active_ok and type_ok and mode_ == want_mode):
